@@ -14,6 +14,11 @@ def gen_case(rng, i):
     L = int(rng.integers(16, 130))
     nrec = int(rng.integers(1, 6))
     recs = [pg.gen_record(rng, n=L, dt=dt, scale=float(10.0 ** rng.integers(-4, 5))) for _ in range(nrec)]
+    if nrec >= 2 and rng.random() < 0.2:
+        # a dead window: one component (or the whole window) exactly zero -- it contributes zero power AND counts as a window of the Welch average
+        k = int(rng.integers(0, nrec))
+        for comp in (("ns", "ew", "vt") if rng.random() < 0.3 else (str(rng.choice(["ns", "ew", "vt"])),)):
+            recs[k][comp] = [0.0] * L
     fft = dict(n=None)
     sm = pg.gen_smoothing(rng, L, [dt], op=str(rng.choice([o for o in pg.OPS if o != "savitzky_and_golay"])))
     c = dict(family=fam, smoothing=sm, width=float(rng.choice(pg.WIDTHS)), fft=fft, policy="keeping_majority_time_step", records=recs)
